@@ -164,6 +164,7 @@ type HarnessResult struct {
 	Funcs       []string          `json:"functions_encoded,omitempty"`
 	Stubs       []string          `json:"stubs_used,omitempty"`
 	EngineErr   string            `json:"engine_error,omitempty"`
+	SolverErr   string            `json:"solver_error,omitempty"`
 	Out         map[string]int    `json:"out,omitempty"`
 	SampleTape  []TapeEntry       `json:"sample_tape,omitempty"`
 	SamplePC    string            `json:"sample_pc,omitempty"`
@@ -339,6 +340,9 @@ func fillResult(res *HarnessResult, in *Interp, ex *Explorer, solver *Solver, ba
 	res.Samples = ex.Samples
 	res.Steps = in.steps
 	res.Out = ex.Out
+	if res.Solver.Errors > 0 {
+		res.SolverErr = solver.lastErr
+	}
 	res.SampleTape = ex.sampleTape
 	res.SamplePC = ex.samplePC
 	s := solver.Stats
